@@ -20,7 +20,7 @@ def main(argv):
     common.set_tz(os.environ.get("TFMC_TZ", "UTC"))
     common.import_tinyflux()
     common.scratch_root()
-    check = replay.load_check(prop, "quick", common.env_seed())
+    check = replay.load_check(prop, os.environ.get("VERIF_TIER", "quick"), common.env_seed())
     check.worker_init()
     cfg = [c for c in check.configs() if c["name"] == cfgname][0]
     history = eval(hist, {"datetime": datetime, "A": check.alpha, "t": check.alpha.t})
@@ -32,7 +32,7 @@ def main(argv):
         print("not reproduced; signatures seen:", sorted({v["signature"] for v in seen})[:20])
         return 1
     v = hit[0]
-    v.update(property=prop, config=cfgname, cfg=rec["cfg"], history=list(history), seed=common.env_seed())
+    v.update(property=prop, config=cfgname, cfg=rec["cfg"], history=list(history), seed=common.env_seed(), tier=check.tier)
     os.makedirs(os.path.join(common.VERIF, "witnesses"), exist_ok=True)
     path = os.path.join(common.VERIF, "witnesses", name + ".json")
     with open(path, "w") as f:
